@@ -9,6 +9,8 @@ import (
 	"go/types"
 	"sort"
 	"strings"
+
+	"golang.org/x/tools/go/packages"
 )
 
 func init() {
@@ -150,7 +152,9 @@ func checkC03(c *Ctx) {
 	type arm struct {
 		alt  string
 		cc   *ast.CaseClause
-		set  *ast.CallExpr // the Set<T>Value call of the arm
+		set  *ast.CallExpr // the (last) Set<T>Value call of the arm
+		altX ast.Expr      // the expression value.<Alt> of the arm's test
+		sets []*ast.CallExpr
 		sw   *ast.SwitchStmt
 		stmt []ast.Stmt
 	}
@@ -186,12 +190,13 @@ func checkC03(c *Ctx) {
 			s := x.str(b.X)
 			for _, alt := range []string{"Number", "Boolean", "String"} {
 				if s == V+"."+alt {
-					a := arm{alt: alt, cc: cc, stmt: cc.Body}
+					a := arm{alt: alt, cc: cc, stmt: cc.Body, altX: b.X}
 					for _, st := range cc.Body {
 						walkNoLit(st, func(q ast.Node) bool {
 							if call, ok := q.(*ast.CallExpr); ok {
 								if name, on := methodCallOn(info, call, m.fStore); on && strings.HasPrefix(name, "Set") {
 									a.set = call
+									a.sets = append(a.sets, call)
 								}
 							}
 							if isw, ok := q.(*ast.SwitchStmt); ok && isw.Tag != nil && a.sw == nil {
@@ -211,7 +216,8 @@ func checkC03(c *Ctx) {
 		return
 	}
 	// per arm: operator constant -> description of the stored expression
-	describe := func(ex ast.Expr, alt string) string {
+	var describe func(ex ast.Expr, alt string, at *ast.CallExpr, opv int64) string
+	describe = func(ex ast.Expr, alt string, at *ast.CallExpr, opv int64) string {
 		operand := func(o ast.Expr) string {
 			s := x.str(o)
 			switch s {
@@ -242,6 +248,10 @@ func checkC03(c *Ctx) {
 			if cal := calleeOf(info, a); cal != nil && len(a.Args) == 2 {
 				return funcFullName(cal) + "(" + operand(a.Args[0]) + "," + operand(a.Args[1]) + ")"
 			}
+			// the operation is looked up in a read-only table of functions keyed by the operator
+			if d, ok := c03TableCall(w, m.pkg, x, e, a, at, opv, operand); ok {
+				return d
+			}
 		}
 		return operand(ex)
 	}
@@ -259,55 +269,87 @@ func checkC03(c *Ctx) {
 		if a.alt == "Boolean" {
 			wantSetter = "SetBooleanValue"
 		}
-		setter, _ := methodCallOn(info, a.set, m.fStore)
-		if setter != wantSetter || len(a.set.Args) != 2 || x.str(a.set.Args[0]) != "$"+sparam+".VariableID" {
-			c.ob("C03.R1", f.Name+"/arm "+a.alt+"/setter", w.Pos(a.set.Pos()), false, "the "+a.alt+" arm stores through "+setter+"("+x.str(a.set.Args[0])+", …) (want "+wantSetter+" under the statement's variable)")
-		} else {
-			c.ob("C03.R1", f.Name+"/arm "+a.alt+"/setter", w.Pos(a.set.Pos()), true, "stores through "+wantSetter+" under the statement's variable")
+		for i, set := range a.sets {
+			key := f.Name + "/arm " + a.alt + "/setter"
+			if i > 0 {
+				key += "#" + itoa(i+1)
+			}
+			setter, _ := methodCallOn(info, set, m.fStore)
+			if setter != wantSetter || len(set.Args) != 2 || x.str(set.Args[0]) != "$"+sparam+".VariableID" {
+				c.ob("C03.R1", key, w.Pos(set.Pos()), false, "the "+a.alt+" arm stores through "+setter+"("+x.str(set.Args[0])+", …) (want "+wantSetter+" under the statement's variable)")
+			} else {
+				c.obN("C03.R1", key, w.Pos(set.Pos()), true, "stores through "+wantSetter+" under the statement's variable", i == 0)
+			}
 		}
-		// what is stored per operator
+		// what is stored per operator: every Set call of the arm, for every operator the path facts at that call do not
+		// exclude, stores the description of its value argument under that operator
 		stored := map[int64]string{} // operator constant -> description
-		valueArg := a.set.Args[len(a.set.Args)-1]
-		valueVar, _ := info.Uses[identOf(valueArg)].(*types.Var)
-		if a.sw != nil {
-			for _, cl := range a.sw.Body.List {
-				cc := cl.(*ast.CaseClause)
-				for _, k := range cc.List {
-					tv, ok := info.Types[k]
-					if !ok || tv.Value == nil || tv.Value.Kind() != constant.Int {
-						continue
-					}
-					kv, _ := constant.Int64Val(tv.Value)
-					for _, st := range cc.Body {
-						if as, ok := st.(*ast.AssignStmt); ok && len(as.Lhs) == 1 && len(as.Rhs) == 1 && as.Tok == token.ASSIGN {
-							if id := identOf(as.Lhs[0]); id != nil && valueVar != nil && info.Uses[id] == valueVar {
-								stored[kv] = describe(as.Rhs[0], a.alt)
-							}
-						}
+		note := func(opv int64, d string) {
+			if old, ok := stored[opv]; ok && old != d {
+				parts := strings.Split(old, " | ")
+				for _, p := range parts {
+					if p == d {
+						return
 					}
 				}
+				parts = append(parts, d)
+				sort.Strings(parts)
+				stored[opv] = strings.Join(parts, " | ")
+				return
 			}
-		} else {
-			// no inner switch: the arm must be guarded to plain assignment
-			d := describe(valueArg, a.alt)
-			for _, tv := range tokVals {
-				opv := tm.entries[tv]
-				sp, _ := g.spelling(gramSet[tv])
-				if sp == "=" {
-					// entailment: the Set call happens only under operator == assignment
-					at := site{pos: a.set.Pos(), anc: a.set}
-					var opExpr ast.Expr
-					walkNoLit(f.Body, func(q ast.Node) bool {
-						if se, ok := q.(*ast.SelectorExpr); ok && opExpr == nil && x.str(se) == "$"+sparam+".InPlaceOperator" {
-							opExpr = se
-						}
-						return true
-					})
-					if opExpr != nil {
-						if ok, _ := e.Prove(a.set, e.intEq(keyCtx{e: e, s: &at}, opExpr, opv)); ok {
-							stored[opv] = d
+			stored[opv] = d
+		}
+		var opExpr ast.Expr
+		walkNoLit(f.Body, func(q ast.Node) bool {
+			if se, ok := q.(*ast.SelectorExpr); ok && opExpr == nil && x.str(se) == "$"+sparam+".InPlaceOperator" {
+				opExpr = se
+			}
+			return true
+		})
+		if opExpr == nil {
+			c.undecided("C03.R1", "the set executor never inspects the statement's operator")
+			return
+		}
+		excluded := func(at ast.Node, opv int64) bool {
+			st := site{pos: at.Pos(), anc: at}
+			ok, _ := e.Prove(at, Not{e.intEq(keyCtx{e: e, s: &st}, opExpr, opv)})
+			return ok
+		}
+		for _, set := range a.sets {
+			valueArg := set.Args[len(set.Args)-1]
+			valueVar, _ := info.Uses[identOf(valueArg)].(*types.Var)
+			// a local assigned in several places: the assignments the operator does not exclude
+			var defs []*ast.AssignStmt
+			if valueVar != nil {
+				walkNoLit(f.Body, func(q ast.Node) bool {
+					if as, ok := q.(*ast.AssignStmt); ok && len(as.Lhs) == 1 && len(as.Rhs) == 1 && as.Tok == token.ASSIGN {
+						if id := identOf(as.Lhs[0]); id != nil && info.Uses[id] == valueVar {
+							defs = append(defs, as)
 						}
 					}
+					return true
+				})
+			}
+			for _, tv := range tokVals {
+				opv, mapped := tm.entries[tv]
+				if !mapped || excluded(set, opv) {
+					continue
+				}
+				if len(defs) > 0 {
+					n := 0
+					for _, as := range defs {
+						if !excluded(as, opv) {
+							note(opv, describe(as.Rhs[0], a.alt, set, opv))
+							n++
+						}
+					}
+					if n == 0 {
+						note(opv, "?{"+valueVar.Name()+" is never assigned under this operator}")
+					}
+					continue
+				}
+				if d := describe(valueArg, a.alt, set, opv); d != "" {
+					note(opv, d)
 				}
 			}
 		}
@@ -351,14 +393,106 @@ func checkC03(c *Ctx) {
 			}
 			return true
 		})
-		if prevAlt == nil {
-			c.ob("C03.R3", f.Name+"/"+wantSetter, w.Pos(a.set.Pos()), false, "the previous value's "+a.alt+" alternative is never inspected: a variable of another type would silently change type")
-		} else {
-			at := site{pos: a.set.Pos(), anc: a.set}
+		for i, set := range a.sets {
+			key := f.Name + "/" + wantSetter
+			if i > 0 {
+				key += "#" + itoa(i+1)
+			}
+			if prevAlt == nil {
+				c.ob("C03.R3", key, w.Pos(set.Pos()), false, "the previous value's "+a.alt+" alternative is never inspected: a variable of another type would silently change type")
+				continue
+			}
+			at := site{pos: set.Pos(), anc: set}
 			k := keyCtx{e: e, s: &at}
 			goal := Or{Not{e.cond(k, okIdent, 0)}, e.nn(k, prevAlt)}
-			ok, how := e.Prove(a.set, goal)
-			c.ob("C03.R3", f.Name+"/"+wantSetter, w.Pos(a.set.Pos()), ok, map[bool]string{true: "entailed: the variable was unknown or already a " + a.alt + " (" + how + ")", false: "a " + a.alt + " can be stored over an existing variable of another type: " + how}[ok])
+			ok, how := e.Prove(set, goal)
+			c.obN("C03.R3", key, w.Pos(set.Pos()), ok, map[bool]string{true: "entailed: the variable was unknown or already a " + a.alt + " (" + how + ")", false: "a " + a.alt + " can be stored over an existing variable of another type: " + how}[ok], i == 0 || !ok)
+		}
+	}
+
+	// ----- R1, completeness: an assignment Yarn allows never fails once its expression has been evaluated. Every return
+	// that may carry an error is entailed by "the evaluation failed, or the (previous type, assigned type, operator)
+	// combination is not an allowed one"
+	{
+		var evalErr *ast.Ident
+		if as, ok := w.parent[evalCall].(*ast.AssignStmt); ok && len(as.Lhs) == 2 {
+			evalErr = identOf(as.Lhs[1])
+		}
+		prevAltOf := map[string]ast.Expr{}
+		walkNoLit(f.Body, func(q ast.Node) bool {
+			if se, ok := q.(*ast.SelectorExpr); ok {
+				for _, alt := range []string{"Number", "Boolean", "String"} {
+					if prevAltOf[alt] == nil && x.str(se) == P+"."+alt {
+						prevAltOf[alt] = se
+					}
+				}
+			}
+			return true
+		})
+		var opX ast.Expr
+		walkNoLit(f.Body, func(q ast.Node) bool {
+			if se, ok := q.(*ast.SelectorExpr); ok && opX == nil && x.str(se) == "$"+sparam+".InPlaceOperator" {
+				opX = se
+			}
+			return true
+		})
+		var rets []*ast.ReturnStmt
+		walkNoLit(f.Body, func(q ast.Node) bool {
+			if r, ok := q.(*ast.ReturnStmt); ok {
+				if len(r.Results) == 1 && isNilExpr(info, r.Results[0]) {
+					return true
+				}
+				rets = append(rets, r)
+			}
+			return true
+		})
+		sort.Slice(rets, func(i, j int) bool { return rets[i].Pos() < rets[j].Pos() })
+		nret := 0
+		for _, r := range rets {
+			if opX == nil || evalErr == nil {
+				break
+			}
+			nret++
+			at := site{pos: r.Pos(), anc: r}
+			k := keyCtx{e: e, s: &at}
+			bad := ""
+			for _, a := range arms {
+				pa := prevAltOf[a.alt]
+				if pa == nil {
+					continue
+				}
+				for _, tv := range tokVals {
+					sp, _ := g.spelling(gramSet[tv])
+					spec := yarnAssignOps[sp]
+					want := map[string]string{"Number": spec.num, "Boolean": spec.boolean, "String": spec.str}[a.alt]
+					opv, mapped := tm.entries[tv]
+					if want == "" || !mapped {
+						continue
+					}
+					combos := []Formula{And{e.nn(k, a.altX), And{e.intEq(k, opX, opv), And{e.cond(k, okIdent, 0), e.nn(k, pa)}}}}
+					if sp == "=" {
+						combos = append(combos, And{e.nn(k, a.altX), And{e.intEq(k, opX, opv), Not{e.cond(k, okIdent, 0)}}})
+					}
+					for ci, combo := range combos {
+						goal := Or{e.nn(k, evalErr), Not{combo}}
+						if ok, _ := e.Prove(r, goal); ok {
+							continue
+						}
+						if c03TableExcludes(w, m.pkg, x, e, f, r, opv) {
+							continue
+						}
+						if bad == "" {
+							bad = "'" + sp + "' on a " + a.alt + map[int]string{0: " variable", 1: " value for a new variable"}[ci]
+						}
+					}
+				}
+			}
+			key := f.Name + "/allowed-assignment-cannot-fail#" + itoa(nret)
+			if bad != "" {
+				c.ob("C03.R1", key, w.Pos(r.Pos()), false, "this failing return is reachable for "+bad+" although the expression evaluated: `v op= e` must store `v op e` whenever the types allow the operator")
+			} else {
+				c.ob("C03.R1", key, w.Pos(r.Pos()), true, "entailed: the evaluation failed or the combination of types and operator is not one Yarn allows")
+			}
 		}
 	}
 
@@ -770,6 +904,24 @@ func c03R4(c *Ctx, m *runnerModel, tm *tokenMap, g *grammarInfo) {
 				found = true
 				dx := w.expander(m.decl)
 				dp := paramName(m.decl, "*tree.DeclareStatement")
+				// the statement handed over: a literal, or a local completed field by field before the call
+				litField := func(arg ast.Expr, name string) ast.Expr {
+					if v := litField(arg, name); v != nil {
+						return v
+					}
+					a := unparen(arg)
+					if u, ok := a.(*ast.UnaryExpr); ok && u.Op == token.AND {
+						a = unparen(u.X)
+					}
+					if id := identOf(a); id != nil {
+						if fields, ok := w.builtFields(m.decl, info.Uses[id]); ok {
+							if v := fields[name]; v != nil && v.Pos() < call.Pos() {
+								return v
+							}
+						}
+					}
+					return nil
+				}
 				op := litField(call.Args[0], "InPlaceOperator")
 				okOp := false
 				if op != nil {
@@ -873,4 +1025,157 @@ func c03R5(c *Ctx) {
 			c.ob("C03.R5", f.Name+"/all-maps", w.Pos(f.Decl.Pos()), len(missing) == 0, map[bool]string{true: "consults all " + itoa(len(maps)) + " maps", false: name + " ignores " + strings.Join(missing, ", ")}[len(missing) == 0])
 		}
 	}
+}
+
+// c03TableCall: call is `op(a, b)` where op is a local read once from a read-only package-level map of functions,
+// `op, known := table[KEY]`. Returns what the call computes when KEY == opv: the entry's body with the arguments in the
+// places of its parameters, "" (nothing: the Set call is not reached) when the table has no entry for opv and the call
+// site is entailed by `known`, and a description that matches nothing when a missing entry would be called.
+func c03TableCall(w *World, pkg *packages.Package, x *expander, e *entFn, call, at *ast.CallExpr, opv int64, operand func(ast.Expr) string) (string, bool) {
+	info := pkg.TypesInfo
+	fid := identOf(call.Fun)
+	if fid == nil || len(call.Args) != 2 {
+		return "", false
+	}
+	fv, ok := info.Uses[fid].(*types.Var)
+	if !ok {
+		return "", false
+	}
+	rhs, idx, _, ok := x.def(fv)
+	if !ok || rhs == nil {
+		return "", false
+	}
+	ix, ok := unparen(rhs).(*ast.IndexExpr)
+	if !ok || idx > 0 {
+		return "", false
+	}
+	tid := identOf(ix.X)
+	if tid == nil {
+		return "", false
+	}
+	lit, why := readOnlyTable(w, pkg, info.Uses[tid])
+	if lit == nil {
+		return "?{function from " + tid.Name + ", which is not a read-only table: " + why + "}", true
+	}
+	if x.str(ix.Index) != x.str(unparen(ix.Index)) || !strings.HasSuffix(x.str(ix.Index), ".InPlaceOperator") {
+		return "?{function looked up under " + x.str(ix.Index) + "}", true
+	}
+	var entry ast.Expr
+	for _, el := range lit.Elts {
+		kv, ok := el.(*ast.KeyValueExpr)
+		if !ok {
+			continue
+		}
+		if tv, ok := info.Types[kv.Key]; ok && tv.Value != nil && tv.Value.Kind() == constant.Int {
+			if k, _ := constant.Int64Val(tv.Value); k == opv {
+				entry = unparen(kv.Value)
+			}
+		}
+	}
+	if entry == nil {
+		// no entry: the zero function must not be called; the found flag has to guard the call
+		if as, ok := w.parent[ix].(*ast.AssignStmt); ok && len(as.Lhs) == 2 {
+			if flag := identOf(as.Lhs[1]); flag != nil && flag.Name != "_" {
+				st := site{pos: at.Pos(), anc: at}
+				if ok, _ := e.Prove(at, e.cond(keyCtx{e: e, s: &st}, flag, 0)); ok {
+					return "", true
+				}
+			}
+		}
+		return "?{the table has no entry for this operator and the missing function is called}", true
+	}
+	switch fn := entry.(type) {
+	case *ast.FuncLit:
+		if len(fn.Body.List) == 1 && fn.Type.Params.NumFields() == 2 {
+			if ret, ok := fn.Body.List[0].(*ast.ReturnStmt); ok && len(ret.Results) == 1 {
+				var params []types.Object
+				for _, fl := range fn.Type.Params.List {
+					for _, nm := range fl.Names {
+						params = append(params, info.Defs[nm])
+					}
+				}
+				arg := func(o ast.Expr) string {
+					if id := identOf(unparen(o)); id != nil && len(params) == 2 {
+						for i, p := range params {
+							if info.Uses[id] == p {
+								return operand(call.Args[i])
+							}
+						}
+					}
+					return "?{" + types.ExprString(o) + "}"
+				}
+				switch r := unparen(ret.Results[0]).(type) {
+				case *ast.BinaryExpr:
+					return arg(r.X) + r.Op.String() + arg(r.Y), true
+				case *ast.CallExpr:
+					if cal := calleeOf(info, r); cal != nil && len(r.Args) == 2 {
+						return funcFullName(cal) + "(" + arg(r.Args[0]) + "," + arg(r.Args[1]) + ")", true
+					}
+				}
+			}
+		}
+		return "?{a function literal that is not a single binary operation}", true
+	default:
+		if cal := funcValueOf(info, entry); cal != nil {
+			return funcFullName(cal) + "(" + operand(call.Args[0]) + "," + operand(call.Args[1]) + ")", true
+		}
+	}
+	return "?{" + types.ExprString(entry) + "}", true
+}
+
+// funcValueOf: the declared function an expression names (f, pkg.F), nil otherwise.
+func funcValueOf(info *types.Info, ex ast.Expr) *types.Func {
+	switch a := unparen(ex).(type) {
+	case *ast.Ident:
+		fn, _ := info.Uses[a].(*types.Func)
+		return fn
+	case *ast.SelectorExpr:
+		fn, _ := info.Uses[a.Sel].(*types.Func)
+		return fn
+	}
+	return nil
+}
+
+// c03TableExcludes: the return is entailed by `!known` where `_, known := table[operator]` reads a read-only table that
+// has an entry for opv — the return is not reachable under that operator.
+func c03TableExcludes(w *World, pkg *packages.Package, x *expander, e *entFn, f *Func, r *ast.ReturnStmt, opv int64) bool {
+	info := pkg.TypesInfo
+	found := false
+	walkNoLit(f.Body, func(q ast.Node) bool {
+		as, ok := q.(*ast.AssignStmt)
+		if !ok || len(as.Lhs) != 2 || len(as.Rhs) != 1 || found {
+			return true
+		}
+		ix, ok := unparen(as.Rhs[0]).(*ast.IndexExpr)
+		if !ok || !strings.HasSuffix(x.str(ix.Index), ".InPlaceOperator") {
+			return true
+		}
+		tid, flag := identOf(ix.X), identOf(as.Lhs[1])
+		if tid == nil || flag == nil || flag.Name == "_" {
+			return true
+		}
+		lit, _ := readOnlyTable(w, pkg, info.Uses[tid])
+		if lit == nil {
+			return true
+		}
+		has := false
+		for _, el := range lit.Elts {
+			if kv, ok := el.(*ast.KeyValueExpr); ok {
+				if tv, ok := info.Types[kv.Key]; ok && tv.Value != nil && tv.Value.Kind() == constant.Int {
+					if k, _ := constant.Int64Val(tv.Value); k == opv {
+						has = true
+					}
+				}
+			}
+		}
+		if !has || as.Pos() > r.Pos() {
+			return true
+		}
+		st := site{pos: r.Pos(), anc: r}
+		if ok, _ := e.Prove(r, Not{e.cond(keyCtx{e: e, s: &st}, flag, 0)}); ok {
+			found = true
+		}
+		return true
+	})
+	return found
 }
